@@ -194,6 +194,14 @@ Definition lw_st0 : lw_st := mk_lw_st false false None None.
 Definition helper_encodes (tbl : list glw) : bool :=
   match tbl with [LwHelperEncode _; LwHelperRetNil _] => true | _ => false end.
 
+(* gg.Encode(T(x)): a conversion of the value on its way into the stream (builder b50; the translator keeps it as the
+   source "T(recv)" of the LwEncode entry).  The narrowing of an unsigned number to 32 bits is given its meaning, so
+   that a table changed that way computes the truncated value; any other source is not modelled. *)
+Definition conv_src (src : bytes) (v : lval) : option lval :=
+  if bytes_eqb src (B "uint32(recv)") then
+    match v with LvUint n => Some (LvUint (n mod 4294967296)%N) | _ => None end
+  else None.
+
 Section LeafWrite.
 Variable wtbl : bytes -> list glw.          (* the write tables, by name *)
 
@@ -226,7 +234,7 @@ Definition lw_step (v : lval) (st : lw_st) (s : glw) : lw_st + lw_result :=
       end
   | LwEncode via src _ =>
       if lw_enc st && (bytes_eqb via n_encode || helper_encodes (wtbl via)) then
-        match lw_out st, (if bytes_eqb src n_local then lw_local st else if bytes_eqb src n_recv then Some v else None) with
+        match lw_out st, (if bytes_eqb src n_local then lw_local st else if bytes_eqb src n_recv then Some v else conv_src src v) with
         | None, Some p => inl (mk_lw_st (lw_buf st) (lw_enc st) (lw_local st) (Some p))
         | _, _ => inr LwrStuck
         end
